@@ -16,7 +16,8 @@ package main
 // (by HandleRequest before the message chain / by the core handler). Every line
 // `place.world <impl> <mode> <call> | …` carries them, so the model is evaluated with the structure the
 // code really has; theorem C15.C15_full_of_fresh_core covers F?.1, C15.request_scoped covers F?10 and
-// C15.C15_full_false_go shows that F?10 does not give the full property.
+// C15.C15_full_false_entry_only shows that F?10 (the code before 4b5c841) does not give the full property;
+// the code of today probes as F011 (C15.C15_full_go).
 //
 // Oracle (independent of the model): every run observes exactly what it observes alone on an empty
 // placeholder (solo-equivalence per run).
@@ -804,8 +805,9 @@ func runPlaceMw(ctx *Ctx) {
 		return
 	}
 	// the structure the theorems need; a concrete failing scenario follows from the oracles below
-	line := "# place.impl " + impl
-	ctx.Add(line, "ok", true, "C15")
+	// the model's `Impl.go` (what theorem C15.C15_full_go is about) must be what the real code probes as
+	line := "place.impl go"
+	ctx.Add(line, "ok "+impl, true, "C15")
 	if impl[0] != 'F' {
 		ctx.Res.Violate(report.Violation{Property: "C15", Oracle: "holder-per-context", Key: "place:holder-shared-by-construction",
 			Detail: "probing newBatchContext: the holder of the placeholder is not a new object per batch context (" + strings.Join(notes, "; ") + "); Lean: C15.reuse_leaks_nested / global_leaks_sequential / global_reset_leaks_interleaved", Line: line})
